@@ -25,13 +25,19 @@ FUEL = 3_000_000
 
 
 def cases(tier, seed):
-    bodies = ["pass", "two_stmts", "comment_block"] if tier == "quick" else None
+    bodies = ["docstring_only", "pass", "two_stmts", "comment_block"] if tier == "quick" else None
     for key, src in P.single_programs(bodies=bodies):
         kind_, header_, docstyle_, body_ = key["defs"][0]
         if tier == "quick" and kind_ in ("in_method", "under_if", "under_try") and (body_ != "pass" or header_ not in ("annotated", "positional", "defaults", "annotated_nodefault") or docstyle_ not in ("none", "rest", "google", "numpydoc")):
             continue  # deeply indented definitions: quick tier on four headers x four docstring shapes
-        if tier == "quick" and docstyle_ in P.DOCSTYLES[6:] and (body_ != "pass" or header_ in ("noparams", "varargs", "multiline", "callable_ann")):
+        if tier == "quick" and docstyle_ in P.DOCSTYLES[6:9] and (body_ != "pass" or header_ in ("noparams", "varargs", "multiline", "callable_ann")):
             continue  # partial / reversed documentation: quick tier on one body and on the headers with two documentable parameters
+        if tier == "quick" and header_ in P.RET_HEADERS and (kind_ not in ("function", "method", "async_function", "nested") or body_ not in ("pass", "docstring_only")):
+            continue  # bracketed return annotations: quick tier on four kinds and the two shortest bodies
+        if tier == "quick" and (docstyle_ in P.DOCSTYLES[9:] or body_ == "docstring_only") and (
+                kind_ not in ("function", "method", "nested", "class_attrs") or body_ not in ("pass", "docstring_only")
+                or header_ not in ("noparams", "positional", "defaults", "annotated", "annotated_nodefault", "kwonly") + tuple(P.RET_HEADERS)):
+            continue  # stubs and docstrings that become empty: quick tier on four kinds and six headers (plus the bracketed-return ones)
         yield dict(kind="program", key=key)
     for key, src in P.pair_programs():
         yield dict(kind="program", key=key)
@@ -413,13 +419,13 @@ def run(case):
 
 
 def describe(tier):
-    n1 = sum(1 for _ in P.single_programs(bodies=["pass", "two_stmts", "comment_block"] if tier == "quick" else None))
+    n1 = sum(1 for c in cases(tier, 0) if c["kind"] == "program" and len(c["key"].get("defs", [])) == 1 and "layout" not in c["key"])
     n2 = sum(1 for _ in P.pair_programs())
     return dict(
-        rule="programs: all {n1} single definitions (5 kinds x 11 header shapes x 6 docstring shapes x {b} bodies) and all {n2} ordered pairs over a "
+        rule="programs: all {n1} single definitions ({k} kinds x {h} header shapes x {ds} docstring shapes x {b} bodies; the quick tier crosses the later additions with fewer kinds and bodies, see cases()) and all {n2} ordered pairs over a "
         "12-definition sub-alphabet (same/different names), each between a prelude and a postlude with comments; x 12 configurations; doctrans "
         "applied up to 3 times (stops when a run changes nothing); plus fault-point enumeration (an exception injected at the first entry of "
-        "every cdd function a clean run enters) on a subset; a case = (program, configuration)".format(n1=n1, n2=n2, b=3 if tier == "quick" else 4),
+        "every cdd function a clean run enters) on a subset; a case = (program, configuration)".format(n1=n1, n2=n2, b=4 if tier == "quick" else 5, k=len(P.KINDS), h=len(P.HEADERS), ds=len(P.DOCSTYLES)),
         bounds=dict(kinds=P.KINDS, headers=P.HEADER_KEYS, docstyles=P.DOCSTYLES, bodies=[b[0] for b in P.BODIES], configurations=len(CONFIGS), rounds=3),
         exhaustive=True,
         assumptions=["'erased' = docstring statements removed, annotations/returns/type comments dropped, AnnAssign with value -> Assign (mc/checks/c07.py:Erase)",
